@@ -1,20 +1,17 @@
-SPECIFICATION MCSpec
+SPECIFICATION ShapeSpec
 CONSTANTS
-  Actor = {"a", "b", "c", "x"}
+  Actor = {"a", "b", "c", "e"}
   Creator = "a"
-  Initial <- InitialABC
+  Initial <- InitialACbm
   Kinds = {"add", "remove", "promote", "demote"}
-  AccessArgs <- ArgsPlain
-  Replica = {r1}
-  MaxOps = 3
+  AccessArgs <- ArgsAll4
+  Replica = {}
+  MaxOps = 5
   MaxRejected = 1
   ShapeAttempts = FALSE
   Defect_TieBreakByPartialCmp = FALSE
   Defect_NoopModifyUnchecked = FALSE
   Defect_RecreateAccepted = FALSE
 INVARIANTS
-  C33_OnlyAuthorized
-  C33_MembersHaveOrigin
-  C31_VerdictsAgree
-PROPERTIES
-  C33_RejectLeavesUnchanged
+  ExportHistory
+CHECK_DEADLOCK FALSE
